@@ -270,8 +270,17 @@ def run(repo, res, tier):
     sid = repo.cls(SC, "ScenarioID")
     pat_node = sid.class_assigns.get("benchmark_id_pattern")
     ev0 = Ev(repo)
+    # the class body is a scope of its own: constants bound before the pattern may be used in it
+    cenv = {"__mod__": mod}
+    for nm_, ex_ in sid.class_assigns.items():
+        if nm_ == "benchmark_id_pattern" or ex_ is None:
+            continue
+        try:
+            cenv[nm_] = ev0.ev(ex_, cenv, mod)
+        except (AnalysisError, Undecided, _Raise):
+            pass
     try:
-        pv = ev0.ev(pat_node, {"__mod__": mod}, mod) if pat_node is not None else None
+        pv = ev0.ev(pat_node, cenv, mod) if pat_node is not None else None
     except AnalysisError:
         pv = None
     if pv is None or not hasattr(pv, "pattern"):
